@@ -164,6 +164,13 @@ CHECKS = {
                       'a pool lock is never handed to a second node before it is returned and is returned only with no holder and no waiter',
         'level_note': 'trusted base: the harness monitors, x86-64 TSO, TSan runtime (libcds annotates its spin locks for TSan, so TSan sees double entry but not a weakened order inside lock/unlock); blocking acquisitions are made in index order so the workload cannot deadlock; a lost unlock (hang) is left to the watchdog',
     },
+    'C23': {
+        'technique': 'runtime monitoring: harness container built directly on flat_combining::kernel with per-request execution counters, a single-combiner occupancy counter and response checks; thread churn so publication records are compacted and freed; ASan (freed-record access), TSan (plain variable in the combiner section)',
+        'level_text': 'Episodes on fresh kernels (compact factor 1/2/1024, pass count 1/2/8; spin and std::mutex combiner locks; wait strategies empty, backoff, single-mutex-single-condvar and - isolated - the two multi-condvar ones): 1-3 long-lived requesters plus waves of '
+                      'short-lived threads issue combine / batch_combine (fc_process serving half of the requests itself) / invoke_exclusive: every request executed exactly once, only one combiner inside, response written and record done when combine returns; '
+                      'ASan reports any access to a publication record freed by compact_list. Found and fixed: F6; known finding F6b (wakeup_any walks the list unlocked)',
+        'level_note': 'trusted base: the harness monitors, x86-64 TSO, sanitizer runtimes; a use-after-free of a publication record is only visible in the ASan build (in dbg it shows as a libcds assert on a garbage record state at best)',
+    },
     'C24': {
         'technique': 'runtime monitoring: side-table ownership ledger keyed by object address plus in-object tokens on real vyukov_queue_pool / lazy_vyukov_queue_pool / bounded_vyukov_queue_pool / pool_allocator; ASan',
         'level_text': '11 pool variants (capacities 2-8, static and dynamic buffers, pool_allocator and its rebind): allocate() may not return an object that is held, a held object may not be overwritten, objects are deallocated by other threads than the allocator; '
